@@ -1254,7 +1254,7 @@ def deep_eq(interp, a, b):
     a, b = (strip(a) if isinstance(a, (SPtr, STyped)) else a), (strip(b) if isinstance(b, (SPtr, STyped)) else b)
     if a is None or b is None:
         return a is b
-    if getattr(a, "_pyvc_model", False) or getattr(b, "_pyvc_model", False):
+    if getattr(type(a), "_pyvc_model", False) or getattr(type(b), "_pyvc_model", False):
         return a is b  # engine stand-ins (fake types, streams) compare by identity
     if isinstance(a, (SBytes, bytes, bytearray)) and isinstance(b, (SBytes, bytes, bytearray)):
         return _norm(SBytes.of(a).eq(SBytes.of(b))) if True else None
